@@ -24,11 +24,12 @@ Theorem C13_out_of_range_refused : forall (l : Z) (p : option Z) (server : bool)
   ((if server then 16383 else 127) < l \/ l < 0)%Z -> addr_make l p server = Err ERefused.
 Proof. exact addr_out_of_range_refused. Qed.
 
-(* The statement for *all* accepted addresses is false of the code (known finding F13a):
-   C13_*  above are the partial theorems on [addr_ok]; this is the witness outside it. *)
-Theorem C13_full_statement_refuted : exists a, addr_make 200 None true = Ok a /\
-  find_one (addr_to_bytes a) 0 = Ok (1, Some 72, 2%nat).
-Proof. exact addr_roundtrip_refuted. Qed.
+(* every address the library accepts lies in that domain: the theorems above speak about ALL accepted addresses
+   (since the repair of the two former findings: a server upper address above 127 without a lower address, and a client
+   address with a physical part, are refused at construction) *)
+Theorem C13_accepted_is_standard : forall l p server a, addr_make l p server = Ok a -> addr_ok a.
+Proof. exact addr_accepted_is_standard. Qed.
+Print Assumptions C13_accepted_is_standard.
 
 (* non-vacuity *)
 Example C13_nonvacuous :
